@@ -88,6 +88,9 @@ type cand struct {
 	recreatedOver bool // created over a dead or cleared predecessor that had content
 	pred          bool // (absent key) a predecessor with content was cleared/emptied
 	clearedExp    int64
+	// taint: this candidate is reachable only if the implementation behaved as
+	// the named known finding describes at some earlier command
+	taint string
 }
 
 func (c *cand) clone() *cand {
@@ -135,14 +138,14 @@ func (c *cand) wipe(ld bool) {
 		}
 		st = append(st, c.later...)
 	}
-	*c = cand{stale: st, pred: c.pred || c.hasContent()}
+	*c = cand{stale: st, pred: c.pred || c.hasContent(), taint: c.taint}
 }
 
 // create starts a new incarnation with empty content (the caller fills it).
 func (c *cand) create() {
 	had := (c.present && c.hasContent()) || c.pred
 	st := c.stale
-	*c = cand{present: true, stale: st, recreatedOver: had}
+	*c = cand{present: true, stale: st, recreatedOver: had, taint: c.taint}
 }
 
 // ---- expected replies ----------------------------------------------------------
@@ -263,51 +266,61 @@ func (m *Model) Apply(op Op, t int64, actual string) Result {
 		return m.applyMulti(op, t, actual)
 	}
 	k := m.ks(op.Typ, op.Keys[0])
-	for _, findings := range []bool{false, true} {
-		var outs []out
-		for _, c := range k.cands {
-			outs = append(outs, m.step(c, op, t, findings)...)
-		}
-		var keep []out
-		for _, o := range outs {
-			if o.w.match(actual) {
-				keep = append(keep, o)
-			}
-		}
-		if len(keep) == 0 {
-			if findings {
-				var exp []string
-				seen := map[string]bool{}
-				for _, o := range outs {
-					if o.via == "" && !seen[o.w.String()] {
-						seen[o.w.String()] = true
-						exp = append(exp, o.w.String())
-					}
-				}
-				return Result{OK: false, Expected: strings.Join(exp, " | ")}
-			}
-			continue
-		}
-		via := ""
-		if findings {
-			// only outcomes through a finding can be new here
-			via = keep[0].via
-			for _, o := range keep {
-				if o.via < via {
-					via = o.via
-				}
-			}
-		}
-		m.commit(k, op, t, keep)
-		return Result{OK: true, Via: via}
+	var outs []out
+	for _, c := range k.cands {
+		outs = append(outs, m.step(c, op, t, true)...)
 	}
-	return Result{}
+	var keep []out
+	for _, o := range outs {
+		if o.w.match(actual) {
+			keep = append(keep, o)
+		}
+	}
+	if len(keep) == 0 {
+		return Result{OK: false, Expected: expectedOf(outs)}
+	}
+	return Result{OK: true, Via: m.commit(k, op, t, keep)}
 }
 
-func (m *Model) commit(k *kstate, op Op, t int64, keep []out) {
+func expectedOf(outs []out) string {
+	var exp []string
+	seen := map[string]bool{}
+	for _, o := range outs {
+		if o.c.taint == "" && !seen[o.w.String()] {
+			seen[o.w.String()] = true
+			exp = append(exp, o.w.String())
+		}
+	}
+	if len(exp) == 0 {
+		for _, o := range outs {
+			if !seen[o.w.String()] {
+				seen[o.w.String()] = true
+				exp = append(exp, o.w.String()+" (only via "+o.c.taint+")")
+			}
+		}
+	}
+	return strings.Join(exp, " | ")
+}
+
+func (m *Model) commit(k *kstate, op Op, t int64, keep []out) (via string) {
 	seen := map[string]bool{}
 	var cs []*cand
 	notes := map[string]int{}
+	// untainted outcomes first: of two equal states the untainted one stays
+	sort.SliceStable(keep, func(i, j int) bool { return keep[i].c.taint == "" && keep[j].c.taint != "" })
+	if keep[0].c.taint != "" {
+		// every surviving candidate went through a known finding: it is now
+		// established, report it once and go on from the states it leads to
+		via = keep[0].c.taint
+		for _, o := range keep {
+			if o.c.taint < via {
+				via = o.c.taint
+			}
+		}
+		for _, o := range keep {
+			o.c.taint = ""
+		}
+	}
 	for _, o := range keep {
 		id := o.c.key()
 		if seen[id] {
@@ -345,9 +358,10 @@ func (m *Model) commit(k *kstate, op Op, t int64, keep []out) {
 	}
 	if len(cs) > maxCands {
 		m.Overflow++
-		cs = cs[len(cs)-maxCands:]
+		cs = cs[:maxCands]
 	}
 	k.cands = cs
+	return via
 }
 
 // reveals: does the reply of op depend on whether the key is alive?
@@ -591,6 +605,12 @@ func (m *Model) step(c0 *cand, op Op, t int64, findings bool) []out {
 		for _, o := range m.stepView(v, op, t, findings) {
 			if o.via == "" {
 				o.via = v.via
+			}
+			if o.c.taint == "" {
+				o.c.taint = o.via
+			}
+			if o.c.taint == "" {
+				o.c.taint = c0.taint
 			}
 			if o.note == "" {
 				o.note = v.note
